@@ -544,11 +544,9 @@ fn convert_array8_to_type(src: &Array8, lg_config_k: u8, target_type: HllType) -
                 }
             }
 
-            let src_est = src.estimate();
-            let arr6_est = array6.estimate();
-            if src_est > arr6_est {
-                array6.set_hip_accum(src_est);
-            }
+            // Carry the gadget's estimator state (HIP accumulator, KxQ registers and the
+            // out-of-order flag) so that estimate and bounds do not depend on the target type.
+            array6.set_estimator(src.estimator().clone());
 
             HllSketch::from_mode(lg_config_k, Mode::Array6(array6))
         }
@@ -562,11 +560,9 @@ fn convert_array8_to_type(src: &Array8, lg_config_k: u8, target_type: HllType) -
                 }
             }
 
-            let src_est = src.estimate();
-            let arr4_est = array4.estimate();
-            if src_est > arr4_est {
-                array4.set_hip_accum(src_est);
-            }
+            // Carry the gadget's estimator state (HIP accumulator, KxQ registers and the
+            // out-of-order flag) so that estimate and bounds do not depend on the target type.
+            array4.set_estimator(src.estimator().clone());
 
             HllSketch::from_mode(lg_config_k, Mode::Array4(array4))
         }
